@@ -103,9 +103,9 @@ def run(p: Program, rep: Report, tier: str) -> None:
     rep.require_instances("R15.1", 13)
 
     # ---------------------------------------------------------------- R15.6 what counts as "non-file field data"
-    from .mp_common import file_field_decision, header_line_split, parse_header_keeps_parameters, parseparam_quote_parity
+    from .mp_common import file_field_decision, header_line_split, parse_header_keeps_parameters, parse_header_splits_at_first_equals, parseparam_quote_parity
 
-    for kind, fn_, node, cons, msg, facts in file_field_decision(p, rep) + parseparam_quote_parity(p, rep) + parse_header_keeps_parameters(p, rep) + header_line_split(p, rep):
+    for kind, fn_, node, cons, msg, facts in file_field_decision(p, rep) + parseparam_quote_parity(p, rep) + parse_header_keeps_parameters(p, rep) + parse_header_splits_at_first_equals(p, rep) + header_line_split(p, rep):
         if kind == "ok":
             rep.ok("R15.6", msg)
         elif kind == "undecided":
